@@ -31,8 +31,10 @@ PROPS["C16"] = {
     ],
 }
 
+RECV_STUBS = {"google.golang.org/protobuf/proto.Unmarshal": "github.com/tsuna/gohbase/region.vUnmarshal"}
+
 PROPS["C11"] = {
-    "files": ["hrpc/c11_cells.go"],
+    "files": ["hrpc/c11_cells.go", "region/fakes.go", "region/c11_receive.go"],
     "claim": "No byte string up to N bytes in the position of a cellblock, and no structurally valid Get/Mutate/Scan response whose "
              "counts disagree with the data, makes the cell decoders panic, read beyond the received bytes or return a cell that is "
              "not fully inside the buffer.",
@@ -49,6 +51,16 @@ PROPS["C11"] = {
          "params": {"quick": {"N": 24, "MAXCELLS": 2}, "thorough": {"N": 44, "MAXCELLS": 2}}},
         {"name": "scan_deserialize", "pkg": "hrpc", "entry": "VerifScanDeserialize", "reach": ["decoded"],
          "params": {"quick": {"N": 24, "R": 2, "MAXCELLS": 1}, "thorough": {"N": 44, "R": 3, "MAXCELLS": 2}}},
+        {"name": "receive_get", "pkg": "region", "entry": "VerifReceiveGet", "stubs": RECV_STUBS, "reach": ["answered", "left-registered"],
+         "params": {"quick": {"N": 26, "MAXCELLS": 1}, "thorough": {"N": 52, "MAXCELLS": 2}}},
+        {"name": "receive_mutate", "pkg": "region", "entry": "VerifReceiveMutate", "stubs": RECV_STUBS, "reach": ["answered", "left-registered"],
+         "params": {"quick": {"N": 26, "MAXCELLS": 1}, "thorough": {"N": 52, "MAXCELLS": 2}}},
+        {"name": "receive_scan", "pkg": "region", "entry": "VerifReceiveScan", "stubs": RECV_STUBS, "reach": ["answered", "left-registered"],
+         "params": {"quick": {"N": 26, "MAXCELLS": 1}, "thorough": {"N": 52, "MAXCELLS": 2}}},
+        {"name": "receive_multi_dispatch", "pkg": "region", "entry": "VerifReceiveMulti", "stubs": RECV_STUBS, "reach": ["answered", "left-registered"],
+         "params": {"quick": {"CELLS": 0, "N": 0, "R": 2, "A": 1, "MAXCELLS": 1}, "thorough": {"CELLS": 0, "N": 0, "R": 2, "A": 2, "MAXCELLS": 1}}},
+        {"name": "receive_multi_cells", "pkg": "region", "entry": "VerifReceiveMulti", "stubs": RECV_STUBS, "reach": ["answered", "left-registered"],
+         "params": {"quick": {"CELLS": 1, "N": 26, "R": 0, "A": 0, "MAXCELLS": 1}, "thorough": {"CELLS": 1, "N": 52, "R": 0, "A": 0, "MAXCELLS": 2}}},
     ],
 }
 
